@@ -68,6 +68,7 @@ func H_C11_roundtrip() {
 	orig := copyTree(m).(map[string]interface{})
 	data, err := Encode(m)
 	nd.Assert("C11.encode-ok", err == nil)
+	nd.Assert("C11.every-time-wrapped-before-msgpack", rawTimesSeen() == 0)
 	nd.Assert("C11.encode-does-not-mutate", ref.DeepEqual(m, orig))
 	out := map[string]interface{}{}
 	err = Decode(data, &out)
